@@ -1,6 +1,7 @@
 import Chihaya.Gen.Validate
 import Chihaya.Model.Config
 import Chihaya.Model.VarInterval
+import Chihaya.Props.C10
 /-!
 # C20 — configuration defaulting is total, range-safe and idempotent
 
@@ -33,11 +34,11 @@ theorem http_idempotent (c : HTTP.Cfg) : HTTP.validate (HTTP.validate c) = HTTP.
 
 /-! ## UDP -/
 def UDP.Valid (c : UDP.Cfg) : Prop :=
-  c.PrivateKey_empty = false ∧ 0 < c.MaxNumWant ∧ 0 < c.DefaultNumWant ∧ 0 < c.MaxScrapeInfoHashes
+  c.PrivateKey_empty = false ∧ 0 < c.MaxNumWant ∧ 0 < c.DefaultNumWant ∧ 0 < c.MaxScrapeInfoHashes ∧ 0 ≤ c.MaxClockSkew
 
 theorem udp_range (c : UDP.Cfg) : UDP.Valid (UDP.validate c) := by
   simp only [UDP.Valid, UDP.validate, UDP.defaultMaxNumWant, UDP.defaultDefaultNumWant, UDP.defaultMaxScrapeInfoHashes]
-  refine ⟨?_, ?_, ?_, ?_⟩
+  refine ⟨?_, ?_, ?_, ?_, ?_⟩
   · cases c.PrivateKey_empty <;> simp
   all_goals (split <;> omega)
 
@@ -45,10 +46,20 @@ theorem udp_preserved (c : UDP.Cfg) (h : UDP.Valid c) : UDP.validate c = c := by
   cases c
   simp only [UDP.Valid] at h
   simp only [UDP.validate, UDP.Cfg.mk.injEq]
-  refine ⟨?_, ?_, ?_, ?_⟩ <;> first | (split <;> omega) | simp [h.1] | rfl
+  refine ⟨?_, ?_, ?_, ?_, ?_⟩ <;> first | (split <;> omega) | simp [h.1] | rfl
 
 theorem udp_idempotent (c : UDP.Cfg) : UDP.validate (UDP.validate c) = UDP.validate c :=
   udp_preserved _ (udp_range c)
+
+/-- **D30**: whatever clock skew is configured — negative values included — the frontend is built from
+the validated configuration, whose skew is not negative, so it accepts every connection ID it issues
+throughout the ID's lifetime (`C10_issued_is_accepted` needs `0 ≤ skew`; before D30 a configured
+`max_clock_skew: -10s` made the tracker refuse each ID for the first ten seconds of its life). -/
+theorem udp_any_configured_skew_issued_accepted (c : UDP.Cfg) (mac : Udp.Mac) (key ip : Bytes) (t0 now : Int)
+    (h0 : 0 ≤ t0) (h32 : t0 / 1000000000 < 2^32) (hafter : t0 ≤ now)
+    (hlife : now ≤ (t0 / 1000000000) * 1000000000 + Udp.ttlNs) :
+    Udp.validate mac key (Udp.generate mac key ip t0) ip now (UDP.validate c).MaxClockSkew = true :=
+  Udp.C10_issued_is_accepted mac key ip t0 now _ h0 h32 (udp_range c).2.2.2.2 hafter hlife
 
 /-! ## memory store -/
 def Memory.Valid (c : Memory.Cfg) : Prop :=
